@@ -71,7 +71,13 @@ PROPS = {
     },
     "C03": {
         "class_prefixes": ["c03-", "harness-crash"],
-        "subs": [{"name": "typed", "n_quick": 1200, "n_thorough": 6000, "oracle": False,
+        "subs": [{"name": "msg", "n_quick": 250, "n_thorough": 5000, "model": "coq/Codec/Message.v",
+             "rule": "the message codec at the level of sections: `enc` = generated messages (every subset of the optional sections, bodies of one amqp-value, "
+                     "1..3 data or 1..3 amqp-sequence sections, or none) through Serializable / Deserializable<Message<Body<Value>>> against enc_message / "
+                     "dec_message; `dec` = byte strings built from the sections: another order, a further section of some kind (the later one wins), more than "
+                     "seven sections, no body, descriptors by name, a section with an unknown descriptor, a truncated tail (outside list-encoded sections), "
+                     "trailing bytes, fixed short inputs"},
+            {"name": "typed", "n_quick": 1200, "n_thorough": 6000, "oracle": False,
              "rule": "typed protocol items (9 performatives + Performative, 5 SASL frames, DeliveryState/Outcome with every variant, Error, "
                      "Source, Target, TargetArchetype, Coordinator, message sections, Message<Body<Value>> with all 64 section subsets x 4 body kinds): "
                      "random field presence and boundary values; on the implementation: from_slice(to_vec(x)) == x and re-encodes equally, "
@@ -521,7 +527,13 @@ PROPS = {
     },
     "C01": {
         "class_prefixes": ["c01-", "c06-frame-too-large", "c06-garbage", "c06-advertised-mfs", "harness-crash"],
-        "subs": [{"name": "fdec", "n_quick": 400, "n_thorough": 6000, "model": "coq/Frame/AmqpFrame.v, coq/Frame/TransferWire.v, coq/Frame/Transfer.v",
+        "subs": [{"name": "msg", "n_quick": 250, "n_thorough": 5000, "model": "coq/Codec/Message.v",
+             "rule": "the message codec at the level of sections: `enc` = generated messages (every subset of the optional sections, bodies of one amqp-value, "
+                     "1..3 data or 1..3 amqp-sequence sections, or none) through Serializable / Deserializable<Message<Body<Value>>> against enc_message / "
+                     "dec_message; `dec` = byte strings built from the sections: another order, a further section of some kind (the later one wins), more than "
+                     "seven sections, no body, descriptors by name, a section with an unknown descriptor, a truncated tail (outside list-encoded sections), "
+                     "trailing bytes, fixed short inputs"},
+            {"name": "fdec", "n_quick": 400, "n_thorough": 6000, "model": "coq/Frame/AmqpFrame.v, coq/Frame/TransferWire.v, coq/Frame/Transfer.v",
              "rule": "the frame codec cases of C06 (see there); here the `xfer` cases: a transfer with a payload of 0..3 frame bodies through the real Transport "
                      "with max-frame-size 512/513/600/1024 - every byte written against transfer_perfs + wire_transfer, and every frame read back by the real "
                      "FrameDecoder against dec_frame; the parts read back must concatenate to the payload"},
